@@ -41,16 +41,16 @@ ANCHORS = ['debian._deb822_repro.tokens:whitespace_split_tokenizer.<func>', 'deb
            'debian._deb822_repro.parsing:ValueReference.remove']
 MUST_REACH = ANCHORS
 FLOORS = {'quick': {'nontrivial': 2500, 'monitors': {'M.read': 5000, 'M.noop': 5000, 'M.edit': 4000, 'M.writeback': 4000, 'M.abort': 1200, 'K5': 4000},
-                    'counters': {'op:append': 1000, 'op:comment+append': 300, 'op:remove': 800, 'op:replace': 800, 'op:ref-set': 800, 'op:ref-remove': 800, 'op:iter-remove': 120,
+                    'counters': {'op:append': 1000, 'op:comment+append': 300, 'op:remove': 800, 'op:replace': 800, 'op:ref-set': 800, 'op:ref-remove': 800, 'op:iter-remove': 120, 'op:ref-after-replace': 300,
                                  'layout:first-line-blank': 200, 'layout:comment-inside': 800, 'layout:multi-line-item': 250,
-                                 'layout:comment-inside-item': 200, 'layout:comment-inside-last-item': 80, 'layout:blank-other-than-one-space-inside-item': 900, 'config:after/value_formatter': 250,
+                                 'layout:comment-inside-item': 200, 'layout:comment-inside-last-item': 80, 'layout:multi-line-item-starting-with-hash': 100, 'layout:blank-other-than-one-space-inside-item': 900, 'config:after/value_formatter': 250,
                                  'config:before/value_formatter': 120, 'config:mid/value_formatter': 130, 'config:after/value_formatter_force': 130,
                                  'config:after/no_reformatting_when_finished': 130}},
           'thorough': {'nontrivial': 150000, 'monitors': {'M.read': 300000, 'M.noop': 300000, 'M.edit': 250000, 'M.writeback': 250000,
                                                           'M.abort': 80000, 'K5': 250000},
                        'counters': {'op:append': 60000, 'op:comment+append': 18000, 'op:remove': 50000, 'op:replace': 50000, 'op:ref-set': 50000,
-                                    'op:ref-remove': 50000, 'op:iter-remove': 8000, 'layout:first-line-blank': 12000, 'layout:comment-inside': 50000, 'layout:multi-line-item': 30000,
-                                    'layout:comment-inside-item': 20000, 'layout:comment-inside-last-item': 8000, 'layout:blank-other-than-one-space-inside-item': 90000, 'config:after/value_formatter': 25000,
+                                    'op:ref-remove': 50000, 'op:iter-remove': 8000, 'op:ref-after-replace': 30000, 'layout:first-line-blank': 12000, 'layout:comment-inside': 50000, 'layout:multi-line-item': 30000,
+                                    'layout:comment-inside-item': 20000, 'layout:comment-inside-last-item': 8000, 'layout:multi-line-item-starting-with-hash': 9000, 'layout:blank-other-than-one-space-inside-item': 90000, 'config:after/value_formatter': 25000,
                                     'config:before/value_formatter': 12000, 'config:mid/value_formatter': 13000, 'config:after/value_formatter_force': 13000,
                                     'config:after/no_reformatting_when_finished': 13000}}}
 LEVEL_TEXT = ('Runtime monitoring: seeded list-field layouts and edit histories on the live list views; reads are compared with an '
@@ -92,7 +92,7 @@ def gen_layout(r, comma, name='F'):
     if comma and r.random() < .2:
         # ONE item of a comma list may itself span several lines (long dependency with version, arch list, profiles)
         k = r.randrange(len(vals))
-        parts = ['ml%d' % k] + [r.choice(['(>= 1.%d~)', '[linux-any kfreebsd-any]', '<!nocheck>', '<!stage1 !cross>', 'x%d', '| alt%d'])
+        parts = [('#ml%d' if r.random() < .3 else 'ml%d') % k] + [r.choice(['(>= 1.%d~)', '[linux-any kfreebsd-any]', '<!nocheck>', '<!stage1 !cross>', 'x%d', '| alt%d'])
                                 .replace('%d', str(j)) for j in range(r.randint(1, 5))]
         v = t = parts[0]
         for part in parts[1:]:
@@ -110,6 +110,8 @@ def gen_layout(r, comma, name='F'):
         texts[k] = t
         flags.add('multi-line')
         flags.add('multi-line-item')
+        if v.startswith('#'):
+            flags.add('multi-line-item-starting-with-hash')
     out = name + ':' + r.choice(['', ' ', ' ', '  ', '\t'])
 
     def linebreak():
@@ -181,6 +183,10 @@ def gen_ops(r, comma, nvals, uid):
             idxs = sorted(r.sample(range(n), r.randint(2, n - 1)))
             ops.append(['iter-remove', idxs])
             n -= len(idxs)
+        elif k < .50 and n:
+            # a value reference READ earlier, the same entry then replaced directly on the list, then the old value
+            # assigned back through the reference: the reference writes whatever it is given
+            ops.append(['ref-after-replace', r.randrange(n), new])
         elif k < .62 and n:
             ops.append(['replace', r.randrange(n), new])
         elif k < .8 and n:
@@ -426,6 +432,23 @@ def run_case(ctx, case):
                         if ref.value in doomed:
                             ref.remove()
                     model[:] = [v for v in model if v not in doomed]
+                elif kind == 'ref-after-replace':
+                    if len(set(model)) != len(model):
+                        continue
+                    refs = list(l.iter_value_references())
+                    k = op[1] % len(model)
+                    if len(refs) != len(model) or refs[k].value != model[k]:
+                        ctx.violation('value-references-differ-from-list', 'step %d: refs %r model %r'
+                                      % (step, [x.value for x in refs], model))
+                        return
+                    old_v = model[k]
+                    l.replace(old_v, op[2])
+                    if refs[k].value != op[2]:
+                        ctx.violation('value-reference-does-not-follow-direct-replace', 'step %d: ref shows %r after replace(%r, %r)'
+                                      % (step, refs[k].value, old_v, op[2]))
+                        return
+                    refs[k].value = old_v
+                    model[k] = old_v
                 elif kind == 'ref-set':
                     refs = list(l.iter_value_references())
                     k = op[1] % len(model)
